@@ -391,17 +391,17 @@ fn serde_serialize_is_raw_u32() {
     assert!(r.value == m.as_raw(), "the emitted u32 is the raw value");
 }
 
-/// The derived `Deserialize` rebuilds, from any u32, the move with that raw value;
-/// together with the harness above: serialise-then-deserialise is the identity on moves.
+/// `Deserialize` never alters what it accepts (a raw value it takes is the move with that raw value), and
+/// every constructed move survives serialise-then-deserialise unchanged. (A deserialiser that rejects bit
+/// patterns no constructor produces would be fine; one that rejects or alters a constructed move is not.)
 #[cfg_attr(kani, kani::proof)]
 #[cfg_attr(replay, test)]
 fn serde_deserialize_roundtrip() {
     use serde::{Deserialize, Serialize};
     let x: u32 = kani::any();
     println!("CASE {{\"harness\":\"serde_deserialize_roundtrip\",\"raw\":{}}}", x);
-    match Move::deserialize(rec::Replayer(x)) {
-        Ok(m) => assert!(m.as_raw() == x, "deserialised move has the serialised raw value"),
-        Err(_) => assert!(false, "deserialising a u32 succeeds"),
+    if let Ok(m) = Move::deserialize(rec::Replayer(x)) {
+        assert!(m.as_raw() == x, "a deserialised move has exactly the serialised raw value");
     }
     // composed round trip on constructed moves
     let a = any_args();
@@ -410,6 +410,8 @@ fn serde_deserialize_roundtrip() {
     let mut r = rec::Recorder::default();
     let _ = m.serialize(&mut r);
     let back = Move::deserialize(rec::Replayer(r.value));
-    assert!(back.is_ok() && back.unwrap() == m, "move survives the serde round trip");
+    assert!(back.is_ok(), "a serialised move can be read back");
+    assert!(back.unwrap() == m, "a move survives the serde round trip unchanged");
     kani::cover!(a.class == 3, "capture-promotion round trip");
+    kani::cover!(a.class == 4, "en-passant round trip");
 }
